@@ -32,6 +32,8 @@ ASSUMPTIONS = [
 ]
 
 KECCAK1 = {i: int.from_bytes(keccak(i.to_bytes(32, "big")), "big") for i in range(4)}
+HBIG1 = int.from_bytes(keccak((12345).to_bytes(32, "big")), "big")
+HBIG2 = int.from_bytes(keccak((7).to_bytes(32, "big") + (300).to_bytes(32, "big")), "big")
 KECCAK2 = {(k, s): int.from_bytes(keccak(k.to_bytes(32, "big") + s.to_bytes(32, "big")), "big") for k in range(3) for s in range(3)}
 
 
@@ -90,6 +92,13 @@ def locations(level):
         L.append(("k32", (KECCAK1[1] + 1) % 2**256))
         L.append(("ADD", ("k32", KECCAK2[(1, 1)]), K1))
         L.append(("k32", KECCAK1[0]))
+    # hash constants that are in none of halmos's precomputed tables, as literals and computed at run time from the same concrete preimage
+    # (a constant slot such as keccak256("some.name") that the contract also hashes at run time)
+    L.append(("k32", HBIG1))
+    L.append(("keccak1", ("k", 12345)))
+    if full:
+        L.append(("k32", HBIG2))
+        L.append(("keccak2", ("k", 7), ("k", 300)))
     return L
 
 
